@@ -87,13 +87,16 @@ func (dc *dataChunk) getDiskFileSize() uint32 {
 }
 
 func (dc *dataChunk) flush(w *DataStreamWriter, gc bool) (flushed uint32, err error) {
+	verifPoint("cf.f.count", dc.chunkid, gc)
 	dc.Lock()
 	n := len(dc.wbuf)
 	dc.Unlock()
 	for i := 0; i < n; i++ {
+		verifPoint("cf.f.fetch", dc.chunkid, i, n)
 		dc.Lock() // because append may change the slice
 		wrec := dc.wbuf[i]
 		dc.Unlock()
+		verifPoint("cf.f.write", dc.chunkid, i, n, wrec.pos.Offset, wrec.rec.Payload.RecSize, wrec.rec.Payload.Ver)
 		_, err := w.append(wrec)
 		if err != nil {
 			logger.Fatalf("fail to append, stop! err: %v", err)
@@ -105,6 +108,7 @@ func (dc *dataChunk) flush(w *DataStreamWriter, gc bool) (flushed uint32, err er
 			// NOTE: not freed yet, make it a little diff with AllocRL, which may provide more insight
 		}
 	}
+	verifPoint("cf.f.fetch", dc.chunkid, n, n)
 	if err = w.wbuf.Flush(); err != nil {
 		logger.Fatalf("write data fail, stop! err: %v", err)
 		return 0, err
@@ -161,6 +165,7 @@ func (dc *dataChunk) GetRecordByOffset(offset uint32) (res *Record, inbuffer boo
 		res.Payload.Decompress()
 		return
 	}
+	verifPoint("cf.r.file", dc.chunkid, offset)
 	wrec, e := readRecordAtPath(dc.path, offset)
 	if e != nil {
 		return nil, false, e
